@@ -1,147 +1,109 @@
-(** C24 — laws of the SUBSTRING index arithmetic and of the [range_scan] guards (Mech/Arith.v). *)
+(** C24 — laws of SUBSTRING (by characters) and of the [range_scan] guards (Mech/Arith.v), for the code
+    as repaired by the C24 fix commits. *)
 From Coq Require Import ZArith List Bool Lia.
 From VibeSQL Require Import Base.LexOrd Value.SqlValue Mech.F64 Mech.Arith Mech.ArithLaws.
 Import ListNotations.
 Open Scope Z_scope.
 
 (** * SUBSTRING *)
-(** a Rust [String] is at most [isize::MAX] bytes long; SQL integers are i64 *)
-Definition str_ok (s : list Z) : Prop := len s < 2 ^ 63.
-Definition i64_ok (z : Z) : Prop := - 2 ^ 63 <= z <= 2 ^ 63 - 1.
-
 Definition start_index (start : Z) : Z := if 0 <? start then start - 1 else 0.
 
-(** closed form of the three-argument call: the unchecked [usize] addition never overflows *)
-Lemma substring3_spec p s start l :
-  str_ok s -> i64_ok start -> i64_ok l ->
-  substring p [VVarchar s; VInteger start; VInteger l] =
-  (if len s <=? start_index start then Ok (VVarchar [])
-   else if l <=? 0 then Ok (VVarchar [])
-   else do r <- str_slice s (start_index start) (Z.min (start_index start + l) (len s)); Ok (VVarchar r)).
+(** SUBSTRING never panics: for arguments of any number, type and value *)
+Theorem substring_never_panics args x : substring args <> Panic x.
 Proof.
-  intros Hs Hst Hl. unfold substring, start_index. cbn [is_null orb str_of bind].
-  destruct (Z.leb_spec (len s) (if 0 <? start then start - 1 else 0)) as [|Hlt]; [reflexivity|].
-  destruct (Z.leb_spec l 0) as [|Hpos]; [reflexivity|].
-  rewrite u64_op_fits; [reflexivity|]. apply fits_u64_iff. unfold str_ok, i64_ok in *. pows.
-  destruct (0 <? start) eqn:E; [apply Z.ltb_lt in E|apply Z.ltb_ge in E]; lia.
+  unfold substring.
+  destruct args as [|sv [|st [|lv [|? ?]]]]; try discriminate;
+    repeat match goal with
+           | |- context [if ?c then _ else _] => destruct c
+           end; try discriminate;
+    destruct (str_of sv); try discriminate; destruct st; try discriminate;
+    try (destruct lv; cbn [bind]; try discriminate);
+    cbn [bind]; repeat match goal with |- context [if ?c then _ else _] => destruct c end; discriminate.
 Qed.
 
-Lemma substring2_spec p s start :
-  substring p [VVarchar s; VInteger start] =
-  (if len s <=? start_index start then Ok (VVarchar [])
-   else do r <- str_slice s (start_index start) (len s); Ok (VVarchar r)).
+(** closed form: the window is counted in CHARACTERS of the UTF-8 text *)
+Theorem substring3_spec s start l :
+  substring [VVarchar s; VInteger start; VInteger l] =
+  Ok (VVarchar (if l <=? 0 then [] else concat (takeZ l (skipZ (start_index start) (utf8_chars s))))).
+Proof. unfold substring, start_index. cbn [is_null orb str_of bind]. destruct (l <=? 0); reflexivity. Qed.
+
+Theorem substring2_spec s start :
+  substring [VVarchar s; VInteger start] = Ok (VVarchar (concat (skipZ (start_index start) (utf8_chars s)))).
 Proof. reflexivity. Qed.
 
-Lemma start_index_nonneg start : 0 <= start_index start.
-Proof. unfold start_index. destruct (0 <? start) eqn:E; [apply Z.ltb_lt in E|]; lia. Qed.
-
-Lemma str_slice_panic s a b x :
-  0 <= a <= b -> b <= len s -> str_slice s a b = Panic x ->
-  x = PCharBoundary /\ (is_char_boundary s a && is_char_boundary s b = false).
+(** the characters partition the bytes: nothing is lost or duplicated by [chars()] *)
+Lemma take_cont_split s c r : take_cont s = (c, r) -> s = c ++ r /\ (length r <= length s)%nat.
 Proof.
-  intros Hab Hb. unfold str_slice.
-  destruct (Z.ltb_spec b a); [lia|]. destruct (Z.ltb_spec (len s) b); [lia|]. destruct (Z.ltb_spec a 0); [lia|].
-  cbn [orb]. destruct (is_char_boundary s a && is_char_boundary s b); [discriminate|]. intros [= <-]. auto.
+  revert c r. induction s as [|b s IH]; intros c r H; cbn [take_cont] in H.
+  - injection H as <- <-. auto.
+  - destruct (is_cont_byte b).
+    + destruct (take_cont s) as [c' r'] eqn:E. injection H as <- <-.
+      destruct (IH c' r' eq_refl) as [-> Hl]. cbn [app length]. split; [reflexivity|lia].
+    + injection H as <- <-. cbn [app length]. split; [reflexivity|lia].
 Qed.
 
-(** the only panic of SUBSTRING(varchar, integer [, integer]) is the byte-index-inside-a-character one:
-    no integer overflow, no out-of-range or inverted slice *)
-Theorem substring_panic_only_char_boundary p s start l x :
-  str_ok s -> i64_ok start -> i64_ok l ->
-  (substring p [VVarchar s; VInteger start; VInteger l] = Panic x \/
-   substring p [VVarchar s; VInteger start] = Panic x) ->
-  x = PCharBoundary.
+Lemma utf8_chars_fuel_concat n s : (length s <= n)%nat -> concat (utf8_chars_fuel n s) = s.
 Proof.
-  intros Hs Hst Hl [H|H].
-  - rewrite substring3_spec in H by assumption. pose proof (start_index_nonneg start).
-    destruct (Z.leb_spec (len s) (start_index start)); [discriminate|].
-    destruct (Z.leb_spec l 0); [discriminate|].
-    destruct (str_slice _ _ _) eqn:E; cbn [bind] in H; try discriminate. injection H as <-.
-    apply str_slice_panic in E as [-> _]; [reflexivity|lia|lia].
-  - rewrite substring2_spec in H. pose proof (start_index_nonneg start).
-    destruct (Z.leb_spec (len s) (start_index start)); [discriminate|].
-    destruct (str_slice _ _ _) eqn:E; cbn [bind] in H; try discriminate. injection H as <-.
-    apply str_slice_panic in E as [-> _]; [reflexivity|lia|lia].
+  revert s. induction n as [|n IH]; intros s H.
+  - destruct s; [reflexivity|cbn in H; lia].
+  - destruct s as [|b r]; [reflexivity|]. cbn [utf8_chars_fuel].
+    destruct (take_cont r) as [c r'] eqn:E. apply take_cont_split in E as [-> Hl].
+    cbn [concat]. rewrite IH; [reflexivity|].
+    cbn [length] in H. rewrite app_length in H. lia.
 Qed.
 
+Theorem utf8_chars_concat s : concat (utf8_chars s) = s.
+Proof. apply utf8_chars_fuel_concat. lia. Qed.
 
-(** exact characterisation: SUBSTRING(s FROM start FOR l) panics iff the window is non-empty and its
-    first or last byte offset falls inside a multi-byte character *)
-Theorem substring3_panic_iff p s start l x :
-  str_ok s -> i64_ok start -> i64_ok l ->
-  (substring p [VVarchar s; VInteger start; VInteger l] = Panic x <->
-   x = PCharBoundary /\ start_index start < len s /\ 0 < l /\
-   is_char_boundary s (start_index start) && is_char_boundary s (Z.min (start_index start + l) (len s)) = false).
-Proof.
-  intros Hs Hst Hl. rewrite substring3_spec by assumption. pose proof (start_index_nonneg start) as Hn.
-  destruct (Z.leb_spec (len s) (start_index start)) as [Hge|Hlt].
-  { split; [discriminate|]. intros (_ & Hc & _). lia. }
-  destruct (Z.leb_spec l 0) as [Hle|Hpos].
-  { split; [discriminate|]. intros (_ & _ & Hc & _). lia. }
-  unfold str_slice.
-  destruct (Z.ltb_spec (Z.min (start_index start + l) (len s)) (start_index start)); [lia|].
-  destruct (Z.ltb_spec (len s) (Z.min (start_index start + l) (len s))); [lia|].
-  destruct (Z.ltb_spec (start_index start) 0); [lia|]. cbn [orb].
-  destruct (is_char_boundary s (start_index start) && is_char_boundary s (Z.min (start_index start + l) (len s))); cbn [bind].
-  - split; [discriminate|]. intros (_ & _ & _ & Hc). discriminate.
-  - split; [intros [= <-]; auto|]. intros (-> & _). reflexivity.
-Qed.
-
-(** on ASCII text bytes are characters: SUBSTRING never panics and returns the requested window *)
+(** on ASCII text characters are bytes: SUBSTRING returns the byte window *)
 Definition ascii (s : list Z) : Prop := Forall (fun b => 0 <= b < 128) s.
 
-Lemma ascii_boundary s i : ascii s -> 0 <= i <= len s -> is_char_boundary s i = true.
+Lemma utf8_chars_fuel_ascii n s : ascii s -> (length s <= n)%nat -> utf8_chars_fuel n s = map (fun b => [b]) s.
 Proof.
-  intros Ha Hi. unfold is_char_boundary. destruct (Z.eqb_spec i 0); [reflexivity|]. cbn [orb].
-  destruct (Z.ltb_spec i (len s)); [|apply Z.eqb_eq; lia].
-  unfold ascii in Ha. rewrite Forall_forall in Ha.
-  assert (Hin : In (nth (Z.to_nat i) s 0) s) by (apply nth_In; unfold len in *; lia).
-  apply Ha in Hin. unfold is_cont_byte. destruct (Z.leb_spec 128 (nth (Z.to_nat i) s 0)); [lia|reflexivity].
+  revert s. induction n as [|n IH]; intros s Ha H.
+  - destruct s; [reflexivity|cbn in H; lia].
+  - destruct s as [|b r]; [reflexivity|]. inversion Ha as [|? ? Hb Hr]; subst.
+    cbn [utf8_chars_fuel map].
+    assert (E : take_cont r = ([], r)).
+    { destruct r as [|b' r']; [reflexivity|]. inversion Hr as [|? ? Hb' _]; subst. cbn [take_cont].
+      unfold is_cont_byte. destruct (Z.leb_spec 128 b'); [lia|reflexivity]. }
+    rewrite E. f_equal. apply IH; [assumption|cbn [length] in H; lia].
 Qed.
 
-Lemma str_slice_ascii s a b :
-  ascii s -> 0 <= a <= b -> b <= len s ->
-  str_slice s a b = Ok (firstn (Z.to_nat (b - a)) (skipn (Z.to_nat a) s)).
+Lemma skipZ_map {A B} (f : A -> B) n l : skipZ n (map f l) = map f (skipZ n l).
+Proof. revert n. induction l as [|x l IH]; intros n; [reflexivity|]. cbn [map skipZ]. destruct (0 <? n); [apply IH|reflexivity]. Qed.
+Lemma takeZ_map {A B} (f : A -> B) n l : takeZ n (map f l) = map f (takeZ n l).
+Proof. revert n. induction l as [|x l IH]; intros n; [reflexivity|]. cbn [map takeZ]. destruct (0 <? n); [cbn [map]; f_equal; apply IH|reflexivity]. Qed.
+Lemma concat_singletons (l : list Z) : concat (map (fun b => [b]) l) = l.
+Proof. induction l as [|x l IH]; [reflexivity|]. cbn [map concat app]. now rewrite IH. Qed.
+
+Theorem substring_ascii s start l :
+  ascii s ->
+  substring [VVarchar s; VInteger start; VInteger l] =
+  Ok (VVarchar (if l <=? 0 then [] else takeZ l (skipZ (start_index start) s))).
 Proof.
-  intros Ha Hab Hb. unfold str_slice.
-  destruct (Z.ltb_spec b a); [lia|]. destruct (Z.ltb_spec (len s) b); [lia|]. destruct (Z.ltb_spec a 0); [lia|].
-  cbn [orb]. rewrite !ascii_boundary by (try assumption; lia). reflexivity.
+  intros Ha. rewrite substring3_spec. destruct (l <=? 0); [reflexivity|].
+  unfold utf8_chars. rewrite utf8_chars_fuel_ascii by (auto; lia).
+  now rewrite skipZ_map, takeZ_map, concat_singletons.
 Qed.
 
-Theorem substring_ascii_no_panic p s start l :
-  ascii s -> str_ok s -> i64_ok start -> i64_ok l ->
-  substring p [VVarchar s; VInteger start; VInteger l] =
-  Ok (VVarchar (if (len s <=? start_index start) || (l <=? 0) then []
-                else firstn (Z.to_nat (Z.min (start_index start + l) (len s) - start_index start))
-                            (skipn (Z.to_nat (start_index start)) s))).
-Proof.
-  intros Ha Hs Hst Hl. rewrite substring3_spec by assumption. pose proof (start_index_nonneg start).
-  destruct (Z.leb_spec (len s) (start_index start)); [reflexivity|]. cbn [orb].
-  destruct (Z.leb_spec l 0); [reflexivity|].
-  rewrite str_slice_ascii by (try assumption; lia). reflexivity.
-Qed.
-
-(** [SELECT SUBSTRING('é', 2)], [SUBSTRING('héllo' FROM 2 FOR 1)] : both profiles *)
-Lemma substring_no_panic_refuted :
-  forall p,
-    substring p [VVarchar [195; 169]; VInteger 2] = Panic PCharBoundary /\
-    substring p [VVarchar [104; 195; 169; 108; 108; 111]; VInteger 2; VInteger 1] = Panic PCharBoundary.
-Proof. intros []; vm_compute; auto. Qed.
+(** the inputs that used to panic *)
+Lemma substring_former_witnesses :
+  substring [VVarchar [195; 169]; VInteger 2] = Ok (VVarchar []) /\
+  substring [VVarchar [104; 195; 169; 108; 108; 111]; VInteger 2; VInteger 1] = Ok (VVarchar [195; 169]) /\
+  substring [VVarchar [104; 195; 169; 108; 108; 111]; VInteger 3; VInteger 2] = Ok (VVarchar [108; 108]).
+Proof. vm_compute. repeat split. Qed.
 
 Example substring_example :
-  substring Debug [VVarchar [104; 101; 108; 108; 111]; VInteger (-5); VInteger 4611686018427387904]
+  substring [VVarchar [104; 101; 108; 108; 111]; VInteger (-5); VInteger 4611686018427387904]
     = Ok (VVarchar [104; 101; 108; 108; 111]) /\
-  substring Release [VVarchar [104; 195; 169; 108]; VInteger 2; VInteger 2] = Ok (VVarchar [195; 169]) /\
+  substring [VVarchar [104; 195; 169; 108]; VInteger 2; VInteger 2] = Ok (VVarchar [195; 169; 108]) /\
   ascii [104; 101; 108; 108; 111].
 Proof. split; [|split]; try (vm_compute; reflexivity). repeat constructor; lia. Qed.
 
 (** * range_scan guards *)
-Local Transparent fgt.
-
 Lemma key_gt_singleton s e : key_gt [s] [e] = value_gt s e.
 Proof. unfold key_gt, value_gt. cbn [key_pcmp]. destruct (pcmp s e) as [[]|]; reflexivity. Qed.
-Lemma key_eqb_singleton s e : key_eqb [s] [e] = eqb s e.
-Proof. cbn [key_eqb]. apply andb_true_r. Qed.
 
 (** normalised bounds are never of an integer / f32 / NUMERIC variant, so the unchecked [i + 1] of
     calculate_next_value is dead code on this path *)
@@ -162,178 +124,72 @@ Proof.
          repeat match goal with |- context [if ?c then _ else _] => destruct c end; discriminate).
 Qed.
 
-(** ** single-column indexes: the guards establish the precondition of BTreeMap::range *)
-Theorem range_guards_single_column p start end_ incl_s incl_e sb eb :
-  range_plan p false start end_ incl_s incl_e = Ok (PlanRange sb eb) -> btree_range_ok sb eb = true.
+Lemma not_inverted_ok sb eb :
+  both_excluded_equal sb eb = false -> bounds_inverted sb eb = false -> btree_range_ok sb eb = true.
 Proof.
-  unfold range_plan, btree_range_ok.
+  unfold btree_range_ok. destruct sb as [|s|s], eb as [|e|e]; cbn [both_excluded_equal bounds_inverted btree_range_check];
+    intros H1 H2; rewrite ?H1, ?H2; reflexivity.
+Qed.
+
+(** ** the guards establish the precondition of BTreeMap::range — for single-column AND multi-column
+       indexes, for every pair of bounds (NaN, mixed types, inverted, degenerate, adjacent doubles) *)
+Theorem range_guards_imply_precondition p multi start end_ incl_s incl_e sb eb :
+  range_plan p multi start end_ incl_s incl_e = Ok (PlanRange sb eb) -> btree_range_ok sb eb = true.
+Proof.
+  unfold range_plan.
   destruct start as [s0|], end_ as [e0|]; cbn [option_map].
   - set (s := normalize_for_comparison s0). set (e := normalize_for_comparison e0).
     destruct (eqb s e && incl_s && incl_e) eqn:G1; [discriminate|].
     destruct (eqb s e && (negb incl_s || negb incl_e)) eqn:G2; [discriminate|].
     destruct (value_gt s e) eqn:G3; [discriminate|].
-    destruct incl_s, incl_e; cbn [both_excluded_equal];
-      try (destruct (key_eqb [s] [e]) eqn:G4; [discriminate|]);
-      intros [= <- <-]; cbn [btree_range_check]; rewrite ?G4, key_gt_singleton, G3; reflexivity.
-  - destruct incl_s; intros [= <- <-]; reflexivity.
-  - destruct incl_e; intros [= <- <-]; reflexivity.
+    destruct multi.
+    + match goal with |- bind ?c _ = _ -> _ => destruct c as [sk| |] eqn:Esk end; cbn [bind]; try discriminate.
+      match goal with |- context [both_excluded_equal sk ?ek] => set (ek0 := ek) end.
+      destruct (both_excluded_equal sk ek0) eqn:G4; [discriminate|].
+      destruct (bounds_inverted sk ek0) eqn:G5; [discriminate|].
+      intros [= <- <-]. now apply not_inverted_ok.
+    + match goal with |- context [both_excluded_equal ?sk ?ek] => set (sk0 := sk); set (ek0 := ek) end.
+      destruct (both_excluded_equal sk0 ek0) eqn:G4; [discriminate|].
+      intros [= <- <-]. apply not_inverted_ok; [exact G4|].
+      subst sk0 ek0. destruct incl_s, incl_e; cbn [bounds_inverted]; rewrite key_gt_singleton; exact G3.
+  - destruct multi.
+    + destruct incl_s; cbn [bind].
+      * intros [= <- <-]. reflexivity.
+      * destruct (smart_increment_value p (normalize_for_comparison s0)) as [[?|]| |]; cbn [bind]; try discriminate;
+          intros [= <- <-]; reflexivity.
+    + destruct incl_s; intros [= <- <-]; reflexivity.
+  - destruct multi; cbn [bind].
+    + destruct incl_e; [destruct (try_increment_sqlvalue _)|]; intros [= <- <-]; reflexivity.
+    + destruct incl_e; intros [= <- <-]; reflexivity.
   - intros [= <- <-]. reflexivity.
 Qed.
 
-(** consequently a single-column range scan never panics, whatever the bounds (NaN, mixed types,
-    inverted, degenerate) *)
-Theorem range_scan_single_column_no_panic p nonempty start end_ incl_s incl_e :
-  range_scan_outcome p false nonempty start end_ incl_s incl_e = Ok tt.
+(** consequently IndexData::range_scan (InMemory) never panics, whatever the index shape and the bounds *)
+Theorem range_scan_never_panics p multi nonempty start end_ incl_s incl_e x :
+  range_scan_outcome p multi nonempty start end_ incl_s incl_e <> Panic x.
 Proof.
   unfold range_scan_outcome.
-  destruct (range_plan p false start end_ incl_s incl_e) as [pl|e|x] eqn:E; cbn [bind].
-  - destruct pl as [| |sb eb]; try reflexivity. destruct nonempty; [|reflexivity].
-    apply range_guards_single_column in E. unfold btree_range_ok in E.
-    destruct (btree_range_check sb eb); [discriminate|reflexivity].
-  - exfalso. revert E. unfold range_plan.
-    destruct start as [s|], end_ as [e0|]; cbn [option_map];
-      repeat match goal with |- context [if ?c then _ else _] => destruct c end; discriminate.
+  destruct (range_plan p multi start end_ incl_s incl_e) as [pl|e|y] eqn:E; cbn [bind].
+  - destruct pl as [| |sb eb]; try discriminate. destruct nonempty; [|discriminate].
+    apply range_guards_imply_precondition in E. unfold btree_range_ok in E.
+    destruct (btree_range_check sb eb); discriminate.
+  - discriminate.
   - exfalso. eapply range_plan_never_panics; eassumption.
 Qed.
 
-(** ** multi-column indexes *)
-(** incrementing an upper bound keeps every value that was not above it not above it *)
-Lemma f_pcmp_not_gt_trans w a b c :
-  f_pcmp w a b <> Some Gt -> f_pcmp w c b = Some Gt -> f_pcmp w a c <> Some Gt.
-Proof.
-  unfold f_pcmp. destruct (f_is_nan w a); cbn [orb]; [discriminate|].
-  destruct (f_is_nan w c); cbn [orb]; [discriminate|]. destruct (f_is_nan w b); [discriminate|].
-  intros H1 H2 H3. injection H2 as H2. injection H3 as H3.
-  apply Z.compare_gt_iff in H2, H3. apply H1. f_equal. apply Z.compare_gt_iff. lia.
-Qed.
-
-Lemma float_step_gt f eps x y : float_step f eps x = Some y -> f_pcmp (fwidth f) y x = Some Gt.
-Proof.
-  unfold float_step. destruct (fis_finite f x); [|discriminate].
-  destruct (fgt f _ x) eqn:G; cbn [andb]; [|discriminate].
-  destruct (fis_finite f _); [|discriminate]. intros [= <-].
-  unfold fgt in G. destruct (f_pcmp _ _ x) as [[]|]; try discriminate. reflexivity.
-Qed.
-
-Lemma lex_compare_snoc_lt (a : list Z) (x : Z) : lex_compare a (a ++ [x]) = Lt.
-Proof. induction a as [|y a IH]; [reflexivity|]. cbn [app lex_compare]. rewrite Z.compare_refl. exact IH. Qed.
-
-Lemma z_cmp_mono x z : (x ?= z) <> Gt -> (x ?= z + 1) <> Gt.
-Proof. intros H G. apply H. apply Z.compare_gt_iff in G. apply Z.compare_gt_iff. lia. Qed.
-
-Lemma try_increment_mono s e e' :
-  try_increment_sqlvalue e = Some e' -> value_gt s e = false -> value_gt s e' = false.
-Proof.
-  unfold value_gt.
-  destruct e; cbn [try_increment_sqlvalue]; try discriminate.
-  - (* Integer *) destruct (z <? i64_max); [|discriminate]. intros [= <-].
-    destruct s; cbn [pcmp]; auto. intros H. destruct (z0 ?= z + 1) eqn:C'; auto. exfalso.
-    eapply (z_cmp_mono z0 z); [|exact C']. intros G. rewrite G in H. discriminate.
-  - (* Smallint *) destruct (z <? 2 ^ 15 - 1); [|discriminate]. intros [= <-].
-    destruct s; cbn [pcmp]; auto. intros H. destruct (z0 ?= z + 1) eqn:C'; auto. exfalso.
-    eapply (z_cmp_mono z0 z); [|exact C']. intros G. rewrite G in H. discriminate.
-  - (* Bigint *) destruct (z <? i64_max); [|discriminate]. intros [= <-].
-    destruct s; cbn [pcmp]; auto. intros H. destruct (z0 ?= z + 1) eqn:C'; auto. exfalso.
-    eapply (z_cmp_mono z0 z); [|exact C']. intros G. rewrite G in H. discriminate.
-  - (* Unsigned *) destruct (z <? 2 ^ 64 - 1); [|discriminate]. intros [= <-].
-    destruct s; cbn [pcmp]; auto. intros H. destruct (z0 ?= z + 1) eqn:C'; auto. exfalso.
-    eapply (z_cmp_mono z0 z); [|exact C']. intros G. rewrite G in H. discriminate.
-  - (* Numeric *) destruct (float_step b64 f64_epsilon bits) as [y|] eqn:F; [|discriminate]. intros [= <-].
-    apply float_step_gt in F. destruct s; cbn [pcmp]; auto. intros H.
-    destruct (f_pcmp 64 bits0 y) as [[]|] eqn:C; auto. exfalso.
-    eapply (f_pcmp_not_gt_trans 64 bits0 bits y); [|exact F|exact C].
-    intros G. change (fwidth b64) with 64 in *. rewrite G in H. discriminate.
-  - (* Float *) destruct (float_step b32 f32_epsilon bits) as [y|] eqn:F; [|discriminate]. intros [= <-].
-    apply float_step_gt in F. destruct s; cbn [pcmp]; auto. intros H.
-    destruct (f_pcmp 32 bits0 y) as [[]|] eqn:C; auto. exfalso.
-    eapply (f_pcmp_not_gt_trans 32 bits0 bits y); [|exact F|exact C].
-    intros G. change (fwidth b32) with 32 in *. rewrite G in H. discriminate.
-  - (* Real *) destruct (float_step b32 f32_epsilon bits) as [y|] eqn:F; [|discriminate]. intros [= <-].
-    apply float_step_gt in F. destruct s; cbn [pcmp]; auto. intros H.
-    destruct (f_pcmp 32 bits0 y) as [[]|] eqn:C; auto. exfalso.
-    eapply (f_pcmp_not_gt_trans 32 bits0 bits y); [|exact F|exact C].
-    intros G. change (fwidth b32) with 32 in *. rewrite G in H. discriminate.
-  - (* Double *) destruct (float_step b64 f64_epsilon bits) as [y|] eqn:F; [|discriminate]. intros [= <-].
-    apply float_step_gt in F. destruct s; cbn [pcmp]; auto. intros H.
-    destruct (f_pcmp 64 bits0 y) as [[]|] eqn:C; auto. exfalso.
-    eapply (f_pcmp_not_gt_trans 64 bits0 bits y); [|exact F|exact C].
-    intros G. change (fwidth b64) with 64 in *. rewrite G in H. discriminate.
-  - (* Character *) intros [= <-]. destruct s; cbn [pcmp]; auto. intros H.
-    destruct (lex_compare s (s0 ++ [0])) eqn:C; auto. exfalso.
-    refine (lex_compare_le_trans s s0 (s0 ++ [0]) _ _ C).
-    + intros G. rewrite G in H. discriminate.
-    + rewrite lex_compare_snoc_lt. discriminate.
-  - (* Varchar *) intros [= <-]. destruct s; cbn [pcmp]; auto. intros H.
-    destruct (lex_compare s (s0 ++ [0])) eqn:C; auto. exfalso.
-    refine (lex_compare_le_trans s s0 (s0 ++ [0]) _ _ C).
-    + intros G. rewrite G in H. discriminate.
-    + rewrite lex_compare_snoc_lt. discriminate.
-  - (* Boolean *) destruct b; [discriminate|]. intros [= <-].
-    destruct s; cbn [pcmp]; auto. destruct b; reflexivity.
-Qed.
-
-(** the start bound the multi-column path hands to BTreeMap::range is the given one: inclusive start,
-    or an exclusive start that could not be incremented *)
-Definition multi_start_unchanged (p : profile) (start : option sqlvalue) (incl_s : bool) : bool :=
-  match start with
-  | None => true
-  | Some s => incl_s || match smart_increment_value p (normalize_for_comparison s) with
-                        | Ok None => true
-                        | _ => false
-                        end
-  end.
-
-Theorem range_guards_multi_column p start end_ incl_s incl_e sb eb :
-  multi_start_unchanged p start incl_s = true ->
-  range_plan p true start end_ incl_s incl_e = Ok (PlanRange sb eb) -> btree_range_ok sb eb = true.
-Proof.
-  unfold range_plan, btree_range_ok, multi_start_unchanged.
-  destruct start as [s0|], end_ as [e0|]; cbn [option_map].
-  - set (s := normalize_for_comparison s0). set (e := normalize_for_comparison e0). intros U.
-    destruct (eqb s e && incl_s && incl_e) eqn:G1; [discriminate|].
-    destruct (eqb s e && (negb incl_s || negb incl_e)) eqn:G2; [discriminate|].
-    destruct (value_gt s e) eqn:G3; [discriminate|].
-    assert (Hsk : (if incl_s then Ok (BIncluded [s])
-                   else do i <- smart_increment_value p s;
-                        match i with Some s' => Ok (BIncluded [s']) | None => Ok (BExcluded [s]) end)
-                  = Ok (if incl_s then BIncluded [s] else BExcluded [s])).
-    { destruct incl_s; [reflexivity|]. cbn [orb] in U.
-      destruct (smart_increment_value p s) as [[?|]| |]; try discriminate. reflexivity. }
-    rewrite Hsk. cbn [bind]. clear Hsk U.
-    destruct incl_e.
-    + destruct (try_increment_sqlvalue e) as [e'|] eqn:T.
-      * pose proof (try_increment_mono s e e' T G3) as M.
-        destruct incl_s; cbn [both_excluded_equal];
-          try (destruct (key_eqb [s] [e']) eqn:G4; [discriminate|]);
-          intros [= <- <-]; cbn [btree_range_check]; rewrite ?G4, key_gt_singleton, M; reflexivity.
-      * destruct incl_s; cbn [both_excluded_equal]; intros [= <- <-]; reflexivity.
-    + destruct incl_s; cbn [both_excluded_equal];
-        try (destruct (key_eqb [s] [e]) eqn:G4; [discriminate|]);
-        intros [= <- <-]; cbn [btree_range_check]; rewrite ?G4, key_gt_singleton, G3; reflexivity.
-  - intros U. destruct incl_s.
-    + intros [= <- <-]. reflexivity.
-    + cbn [orb] in U. destruct (smart_increment_value p (normalize_for_comparison s0)) as [[?|]| |];
-        try discriminate. cbn [bind]. intros [= <- <-]. reflexivity.
-  - intros _. cbn [bind]. destruct incl_e; [destruct (try_increment_sqlvalue _)|]; intros [= <- <-]; reflexivity.
-  - intros _ [= <- <-]. reflexivity.
-Qed.
-
-(** the full statement is false for multi-column indexes: [d > 1.5 AND d < 1.5000000000000002]
-    (the exclusive start is moved up by two ulps, past the end bound) *)
-Lemma range_guards_multi_column_refuted :
+(** [d > 1.5 AND d < 1.5000000000000002] on an index (d, a): the incremented start passes the end bound,
+    the re-check returns the empty result (used to panic in BTreeMap::range) *)
+Lemma range_former_witness :
   forall p,
-    range_plan p true (Some (VDouble 4609434218613702656)) (Some (VDouble 4609434218613702657)) false false
-    = Ok (PlanRange (BIncluded [VDouble 4609434218613702658]) (BExcluded [VDouble 4609434218613702657])) /\
-    btree_range_ok (BIncluded [VDouble 4609434218613702658]) (BExcluded [VDouble 4609434218613702657]) = false /\
-    range_scan_outcome p true true (Some (VDouble 4609434218613702656)) (Some (VDouble 4609434218613702657)) false false
-    = Panic PRangeOrder /\
-    multi_start_unchanged p (Some (VDouble 4609434218613702656)) false = false.
+    range_plan p true (Some (VDouble 4609434218613702656)) (Some (VDouble 4609434218613702657)) false false = Ok PlanEmpty /\
+    range_scan_outcome p true true (Some (VDouble 4609434218613702656)) (Some (VDouble 4609434218613702657)) false false = Ok tt.
 Proof. intros []; vm_compute; auto. Qed.
 
 Example range_example :
   range_plan Debug false (Some (VInteger 100)) (Some (VInteger 50)) true true = Ok PlanEmpty /\
   range_plan Debug true (Some (VInteger 5)) (Some (VInteger 5)) false false = Ok PlanEmpty /\
+  range_plan Debug true (Some (VInteger 5)) (Some (VInteger 9)) false true
+    = Ok (PlanRange (BIncluded [VDouble 4617315517961601025]) (BExcluded [VDouble 4621256167635550209])) /\
   range_plan Debug false (Some (VVarchar [120])) (Some (VInteger 5)) false false
-    = Ok (PlanRange (BExcluded [VVarchar [120]]) (BExcluded [VDouble 4617315517961601024])) /\
-  multi_start_unchanged Debug (Some (VInteger 3)) true = true.
-Proof. vm_compute. auto. Qed.
+    = Ok (PlanRange (BExcluded [VVarchar [120]]) (BExcluded [VDouble 4617315517961601024])).
+Proof. vm_compute. repeat split. Qed.
